@@ -58,13 +58,13 @@ func (d *Dialer) Dial(network, address string) (Conn, error) {
 	return d.DialContext(context.Background(), network, address)
 }
 
-func Dial(network, address string) (Conn, error)     { return (&Dialer{}).Dial(network, address) }
+func Dial(network, address string) (Conn, error)       { return (&Dialer{}).Dial(network, address) }
 func Listen(network, address string) (Listener, error) { return net.Listen(network, address) }
-func JoinHostPort(host, port string) string           { return net.JoinHostPort(host, port) }
+func JoinHostPort(host, port string) string            { return net.JoinHostPort(host, port) }
 func SplitHostPort(hostport string) (string, string, error) {
 	return net.SplitHostPort(hostport)
 }
-func ParseIP(s string) IP                         { return net.ParseIP(s) }
-func ParseCIDR(s string) (IP, *IPNet, error)      { return net.ParseCIDR(s) }
-func LookupHost(host string) ([]string, error)    { return net.LookupHost(host) }
+func ParseIP(s string) IP                          { return net.ParseIP(s) }
+func ParseCIDR(s string) (IP, *IPNet, error)       { return net.ParseCIDR(s) }
+func LookupHost(host string) ([]string, error)     { return net.LookupHost(host) }
 func FileListener(f interface{}) (Listener, error) { panic("simnet: FileListener is not available") }
